@@ -139,3 +139,84 @@ Fixpoint rc_path_safe (p : list rc_ev) (alive deferred : bool) : bool :=
 Definition rc_site_safe (evs : list rc_ev) : bool := forallb (fun p => rc_path_safe p false false) (rc_paths evs).
 Definition rc_sites_safe (sites : list (string * string * list rc_ev)) : bool :=
   match sites with [] => false | _ => forallb (fun s => rc_site_safe (snd s)) sites end.
+
+(* ---------------------------------------------------------------------------------------- *)
+(* Deadlines on a user connection routed by vhost.Muxer.handle (https and tcpmux proxies): the statements
+   of the function that touch a deadline, regenerated by translator unit t9dl (gen/GenMuxDeadline.v).
+   net.Conn semantics: SetDeadline = both directions; the zero time clears; an armed deadline makes every
+   Read / Write at or after that instant fail with a timeout (libio.Join then closes both sides). *)
+Inductive mx_which := MxBoth | MxRead | MxWrite.
+Inductive mx_op := MxArm (w : mx_which) | MxClear (w : mx_which) | MxHandoff | MxUnknownOp (what : string).
+
+(* (read deadline armed, write deadline armed) *)
+Definition mx_apply (st : bool * bool) (set : bool) (w : mx_which) : bool * bool :=
+  match w with
+  | MxBoth => (set, set)
+  | MxRead => (set, snd st)
+  | MxWrite => (fst st, set)
+  end.
+
+(* state of the connection at the moment it is handed to the proxy; None: never handed over / not understood *)
+Fixpoint mx_at_handoff (ops : list mx_op) (st : bool * bool) : option (bool * bool) :=
+  match ops with
+  | [] => None
+  | MxArm w :: r => mx_at_handoff r (mx_apply st true w)
+  | MxClear w :: r => mx_at_handoff r (mx_apply st false w)
+  | MxHandoff :: _ => Some st
+  | MxUnknownOp _ :: _ => None
+  end.
+
+Definition mx_handoff_clean (ops : list mx_op) : bool :=
+  match mx_at_handoff ops (false, false) with
+  | Some (false, false) => true
+  | _ => false
+  end.
+
+(* bytes written towards the user on the routed connection, each chunk at an age (ms since accept): what the
+   user receives.  The first write at or after the deadline fails and ends the stream. *)
+Fixpoint mx_deliver (wr_armed : bool) (timeout : Z) (chunks : list (Z * bytes)) : bytes :=
+  match chunks with
+  | [] => []
+  | (age, d) :: r => if wr_armed && (timeout <=? age) then [] else d ++ mx_deliver wr_armed timeout r
+  end.
+
+(* requests read from the user on the routed connection, each arriving at an age: how many are read *)
+Fixpoint mx_reads (rd_armed : bool) (timeout : Z) (ages : list Z) : Z :=
+  match ages with
+  | [] => 0
+  | age :: r => if rd_armed && (timeout <=? age) then 0 else 1 + mx_reads rd_armed timeout r
+  end.
+
+Definition mx_deliver_after (ops : list mx_op) (timeout : Z) (chunks : list (Z * bytes)) : option bytes :=
+  match mx_at_handoff ops (false, false) with
+  | Some (_, wr) => Some (mx_deliver wr timeout chunks)
+  | None => None
+  end.
+
+Definition mx_reads_after (ops : list mx_op) (timeout : Z) (ages : list Z) : option Z :=
+  match mx_at_handoff ops (false, false) with
+  | Some (rd, _) => Some (mx_reads rd timeout ages)
+  | None => None
+  end.
+
+(* ---------------------------------------------------------------------------------------- *)
+(* The http.Server literal that serves vhostHTTPPort (server/service.go), regenerated by unit t9tr.
+   net/http reads a request head of at most MaxHeaderBytes + 4096 bytes (DefaultMaxHeaderBytes = 1 MiB when the
+   field is zero) and answers 431 itself beyond that: the backend never sees the request. *)
+Definition hsv_reviewed_fields : list string := ["Addr"; "Handler"; "ReadHeaderTimeout"]%string.
+
+Definition hsv_literal_ok (nlits : Z) (fs : ht_fields) : bool :=
+  (nlits =? 1) && forallb (fun f => ht_str_mem (fst f) hsv_reviewed_fields) fs.
+
+Definition hsv_max_header_bytes (fs : ht_fields) : option Z :=
+  match ht_lookup "MaxHeaderBytes" fs with
+  | None => Some 1048576
+  | Some (HtInt z) => Some (if z =? 0 then 1048576 else z)
+  | Some _ => None
+  end.
+
+Definition hsv_head_admitted (fs : ht_fields) (head_bytes : Z) : option bool :=
+  match hsv_max_header_bytes fs with
+  | Some m => Some (head_bytes <=? m + 4096)
+  | None => None
+  end.
